@@ -203,7 +203,14 @@ struct Runner : RunnerBase {
     }
 
     void del_class(int idx) override { auto c = classes.at(idx); if (c->live) { P::classes.remove(c->info); c->live = false; } }
-    void del_method(int idx) override { auto m = methods.at(idx); if (m->live) { P::methods.remove(*m->info); m->live = false; } }
+    void del_method(int idx) override {
+        auto m = methods.at(idx);
+        if (!m->live) return;
+        // an unloaded library takes its definitions with it (their destructors unregister them first)
+        for (auto d : m->defs) if (d->live) { m->info->specs.remove(d->info); d->live = false; }
+        P::methods.remove(*m->info); m->live = false;
+        if (m->slot >= 0) slot_used[m->slot] = false;
+    }
     void del_def(int mi, int idx) override { auto d = methods.at(mi)->defs.at(idx); if (d->live) { methods.at(mi)->info->specs.remove(d->info); d->live = false; } }
 
     // live methods / defs in catalog order (= creation order among the live ones, since push_back appends)
